@@ -27,7 +27,8 @@ SETTINGS = {"missing_f": True, "use_fstrings": True, "unused_variable": True, "u
 OPTIONS = {"maximum_positional_args": 2}
 INPUTS = (0, 1, 7, 10)
 MAX_STEPS = 6
-CODES = {"unused": {"unused_variable", "unused_assignment"}, "assign": {"unused_variable", "unused_assignment"}}
+CODES = {"unused": {"unused_variable", "unused_assignment"}, "assign": {"unused_variable", "unused_assignment"},
+         "pct": {"use_fstrings"}}
 
 PRELUDE = '''from contextlib import contextmanager
 
@@ -124,6 +125,7 @@ SHAPES: dict[str, dict[str, tuple[list[str], Optional[list[str]]]]] = {
         "trailing_text": (['s = "a %s b" % n', "return s"], None),
         "newline_end": (['s = "hello %s!\\n" % name', "return s"], None),
         "newline_end_notext": (['s = "hello %s\\n" % name', "return s"], None),
+        "double_newline_end": (['s = "a %s\\n\\n" % name', "return s"], None),
         "two_trailing_newline": (['s = "%s and %s!\\n" % (name, n)', "return s"], None),
         "newline_mid": (['s = "a\\nb %s c" % name', "return s"], None),
         "tab_escape": (['s = "a\\t%s" % name', "return s"], None),
@@ -181,7 +183,22 @@ def _assign_body(case: dict) -> list[str]:
     return ["box = [0, 0, 0, 0]", " = ".join(targets) + " = " + value, f"return ({ret})"]
 
 
+# argument values that expose every field of a %-specifier: sign flags need non-negative numbers, width / zero padding
+# short values, precision long strings / fractions
+PCT_VALUES = {"d": "(5, -5, 0, 123456)", "x": "(5, -5, 0, 123456)", "f": "(2.5, -2.5, 0.0, 1234.5678)",
+              "s": '("ab", "abcdefgh", "")', "r": '("ab", "abcdefgh", "")'}
+
+
+def _pct_body(case: dict) -> list[str]:
+    spec = "%" + case["flag"] + ("" if case["width"] == "none" else case["width"]) + (
+        "" if case["prec"] == "none" else "." + case["prec"]) + case["conv"]
+    expr = f'"v {spec}|%s." % (a, name)' if case["two"] else f'"v {spec}." % a'
+    return ["out = []", f"for a in {PCT_VALUES[case['conv']]}:", f"    out.append({expr})", "return out"]
+
+
 def render(case: dict, intended: bool = False) -> str:
+    if case["fam"] == "pct":
+        return PRELUDE + _fn(_pct_body(case))            # %-to-f-string conversion must not change any result
     if case["fam"] == "assign":
         return PRELUDE + _fn(_assign_body(case))         # removing dead bindings never changes what fn returns
     body, want = SHAPES[case["producer"]][case["shape"]]
@@ -245,7 +262,7 @@ def observe_one(arg: tuple[int, dict]) -> dict:
     tid, case = arg
     src = render(case)
     ast.parse(src)
-    allowed = CODES.get(case["fam"] if case["fam"] == "assign" else case["producer"], {case.get("producer")})
+    allowed = CODES.get(case["fam"] if case["fam"] != "table" else case["producer"], {case.get("producer")})
     want_beh = behaviour(render(case, intended=True))
     cur = src
     offers: list[bool] = []
@@ -320,7 +337,8 @@ def run_part_d(check: core.Check, quick: bool) -> None:
     res = core.require_ok(core.run_tlc("FixShapesEmit", cfg, coverage=True, timeout=1700), "FixShapes exhaustive")
     core.require_coverage(res, ["PickFam", "AddTarget", "EndTargets", "PickInner", "PickRhs", "PickShape"], "FixShapes")
     check.add_tlc("shapes:exhaustive+emit:" + cfg, res)
-    for scfg, inv in (("FixShapes.strict.cfg", "AppliedIsIntendedStrict"), ("FixShapes.chainany.cfg", "AppliedIsIntended")):
+    for scfg, inv in (("FixShapes.strict.cfg", "AppliedIsIntendedStrict"), ("FixShapes.chainany.cfg", "AppliedIsIntended"),
+                      ("FixShapes.flagblind.cfg", "AppliedIsIntended")):
         r = core.run_tlc("FixShapes", scfg, timeout=600)
         if r.violated != inv:
             raise core.MachineryError(f"sensitivity self-test failed: {scfg} must violate {inv}, got {r.violated} / {r.error}")
@@ -334,6 +352,10 @@ def run_part_d(check: core.Check, quick: bool) -> None:
                  and o["case"]["inner"] == "none" and o["case"]["rhs"] == "pure")
     corrupt = [
         ({**base, "same": False}, {"viol:OnlyIntendedChange"}),
+        # the seeded mechanism of C16-5: a flag-only specifier is offered and applied, the sign disappears
+        ({**next(o for o in obs if o["case"]["fam"] == "pct" and o["case"]["flag"] == "+" and o["case"]["width"] == "none"
+                 and o["case"]["prec"] == "none" and o["case"]["conv"] == "d" and not o["case"]["two"]),
+          "offers": [True], "applied": True, "same": False}, {"viol:OnlyIntendedChange"}),
         ({**base, "reaching": False, "nonew": False}, {"viol:OnlyIntendedChange", "viol:NoNewDiagnosticKind"}),
         ({**base, "parses": False}, {"viol:StillParses"}),
         ({**base, "gone": False, "clean": False}, {"viol:ProposingDiagnosticGone", "viol:FixLoopTerminatesClean"}),
@@ -357,11 +379,13 @@ def run_part_d(check: core.Check, quick: bool) -> None:
     check.cov["shapes_verdict_counts"] = counts
     check.cov["shapes_sensitivity"] = (
         "AppliedIsIntendedStrict is violated on the model (the deviation classes are real); the Impl variant that offers the "
-        "removal for any name target of a chained assignment (ChainAny = TRUE) is rejected by TLC (AppliedIsIntended violated)")
+        "removal for any name target of a chained assignment (ChainAny = TRUE) and the one whose %-specifier guard ignores "
+        "conversion flags (FlagBlind = TRUE) are rejected by TLC (AppliedIsIntended violated)")
     check.cov["rule"] = str(check.cov.get("rule", "")) + (
         f" | part D (FixShapes.tla): {len(obs)} producer cases = assignment statements with <= {2 if quick else 3} targets "
-        "(unused/used name, 2-tuple, subscript) x walrus in the value x pure/effectful value, plus the named shapes of every "
-        "producer; each fixed by the real code to the fixpoint, fn executed before/after on 0/1/7/10")
+        "(unused/used name, 2-tuple, subscript) x walrus in the value x pure/effectful value, the named shapes of every "
+        "producer, and %-specifiers flag{none,+,space,-,0,#} x width{none,5} x precision{none,.0,.2} x conversion{d,s,r,x,f} x "
+        "1-2 specifiers executed on positive/negative/zero ints, floats, short/long/empty strings; each fixed by the real code to the fixpoint, fn executed before/after on 0/1/7/10")
     check.assumptions.append(
         "FixShapes: 'the intended change' is judged by really executing fn on 4 inputs (results, exceptions, the LOG of "
         "effectful calls, a subscripted list) against the intended program, by the set of diagnostic kinds and by a "
